@@ -104,22 +104,62 @@ def mk_unpack(x: Term, i: int, n: int | None) -> Term:
     return ("unpack", x, i, n)
 
 
+def children(term) -> list:
+    """Direct sub-terms, aware of each op's layout (keyword names, target strings, constants are not terms)."""
+    op = term[0]
+    if op in ("param", "ref", "const", "closure", "unknown"):
+        return []
+    if op == "attr":
+        return [term[1]]
+    if op == "call":
+        return [term[1], *term[2], *(v for _, v in term[3])]
+    if op in ("sub", "pair"):
+        return [term[1], term[2]]
+    if op == "slice":
+        return [x for x in term[1:] if x is not None]
+    if op in ("tuple", "list", "set"):
+        return list(term[1])
+    if op == "dict":
+        out = []
+        for k, v in term[1]:
+            if k is not None:
+                out.append(k)
+            out.append(v)
+        return out
+    if op in ("star", "elem", "index", "key", "value", "not", "enter", "exc", "await", "yield"):
+        return [term[1]] if isinstance(term[1], tuple) else []
+    if op == "zipelem":
+        return [term[1], term[2]]
+    if op == "comp":
+        return [term[2], *(g[0] for g in term[3]), *term[4]]
+    if op == "unpack":
+        return [term[1]]
+    if op == "ifexp":
+        return [term[1], term[2], term[3]]
+    if op == "boolop":
+        return list(term[2])
+    if op in ("cmp", "binop"):
+        return [term[2], term[3]]
+    if op == "unop":
+        return [term[2]]
+    if op == "fstr":
+        return list(term[1])
+    if op == "fmt":
+        return [term[1]] + ([term[3]] if term[3] is not None else [])
+    if op == "lambda":
+        return [term[2]]
+    if op == "phi":
+        return list(term[1])
+    return []
+
+
 def walk(term) -> t.Iterator[Term]:
     """Pre-order walk over all sub-terms."""
     if not isinstance(term, tuple) or not term or not isinstance(term[0], str):
         return
     yield term
-    for a in term[1:]:
-        yield from _walk_any(a)
-
-
-def _walk_any(a):
-    if isinstance(a, tuple):
-        if a and isinstance(a[0], str) and a[0] in _OPS:
-            yield from walk(a)
-        else:
-            for x in a:
-                yield from _walk_any(x)
+    for c in children(term):
+        yield from walk(c)
 
 
 _OPS = {
@@ -222,21 +262,52 @@ def show(term, depth: int = 0) -> str:
 
 def rewrite(term, fn):
     """Bottom-up rewrite: fn(term_with_rewritten_children) -> replacement or None."""
-    if not isinstance(term, tuple) or not term:
+    if not isinstance(term, tuple) or not term or not isinstance(term[0], str):
         return term
-    if isinstance(term[0], str) and term[0] in _OPS:
-        new = (term[0],) + tuple(_rewrite_any(a, fn) for a in term[1:])
-        r = fn(new)
-        return new if r is None else r
-    return tuple(_rewrite_any(a, fn) for a in term)
-
-
-def _rewrite_any(a, fn):
-    if isinstance(a, tuple):
-        if a and isinstance(a[0], str) and a[0] in _OPS:
-            return rewrite(a, fn)
-        return tuple(_rewrite_any(x, fn) for x in a)
-    return a
+    op = term[0]
+    R = lambda x: rewrite(x, fn)  # noqa: E731
+    if op in ("param", "ref", "const", "closure", "unknown"):
+        new = term
+    elif op == "attr":
+        new = (op, R(term[1]), term[2])
+    elif op == "call":
+        new = (op, R(term[1]), tuple(R(a) for a in term[2]), tuple((k, R(v)) for k, v in term[3]))
+    elif op in ("sub", "pair"):
+        new = (op, R(term[1]), R(term[2]))
+    elif op == "slice":
+        new = (op,) + tuple(None if x is None else R(x) for x in term[1:])
+    elif op in ("tuple", "list", "set"):
+        new = (op, tuple(R(x) for x in term[1]))
+    elif op == "dict":
+        new = (op, tuple((None if k is None else R(k), R(v)) for k, v in term[1]))
+    elif op in ("star", "elem", "index", "key", "value", "not", "enter", "exc", "await", "yield"):
+        new = (op, R(term[1])) + term[2:]
+    elif op == "zipelem":
+        new = (op, R(term[1]), R(term[2]))
+    elif op == "comp":
+        new = (op, term[1], R(term[2]), tuple((R(g[0]), g[1]) for g in term[3]), tuple(R(c) for c in term[4]))
+    elif op == "unpack":
+        new = (op, R(term[1]), term[2], term[3])
+    elif op == "ifexp":
+        new = (op, R(term[1]), R(term[2]), R(term[3]))
+    elif op == "boolop":
+        new = (op, term[1], tuple(R(v) for v in term[2]))
+    elif op in ("cmp", "binop"):
+        new = (op, term[1], R(term[2]), R(term[3]))
+    elif op == "unop":
+        new = (op, term[1], R(term[2]))
+    elif op == "fstr":
+        new = (op, tuple(R(x) for x in term[1]))
+    elif op == "fmt":
+        new = (op, R(term[1]), term[2], None if term[3] is None else R(term[3]))
+    elif op == "lambda":
+        new = (op, term[1], R(term[2]))
+    elif op == "phi":
+        new = (op, tuple(R(x) for x in term[1]))
+    else:
+        new = term
+    r = fn(new)
+    return new if r is None else r
 
 
 def fold_bool(term):
